@@ -720,6 +720,9 @@ func (in *Interp) runBlock(fr *frame) {
 		if p := instr.Pos(); p.IsValid() {
 			fr.pos = p
 		}
+		if traceFn != "" && fr.fn.Name() == traceFn {
+			fmt.Fprintf(os.Stderr, "TRACE %s b%d: %s\n", fr.fn.Name(), b.Index, instr)
+		}
 		switch x := instr.(type) {
 		case *ssa.Jump:
 			fr.prev, fr.block = b, b.Succs[0]
@@ -857,7 +860,7 @@ func (in *Interp) exec(fr *frame, instr ssa.Instruction) {
 		if p == nil {
 			in.goPanicf("nil pointer dereference (store)")
 		}
-		*p = copyVal(in.get(fr, x.Val))
+		storeInPlace(p, copyVal(in.get(fr, x.Val)))
 	case *ssa.FieldAddr:
 		p := in.get(fr, x.X).(*Value)
 		if p == nil {
@@ -880,7 +883,15 @@ func (in *Interp) exec(fr *frame, instr ssa.Instruction) {
 		fr.env[x] = in.forceTop(in.slice(fr, x))
 	case *ssa.MakeSlice:
 		n := in.concreteInt(in.get(fr, x.Len).(*Term), "make slice length")
-		c := in.concreteInt(in.get(fr, x.Cap).(*Term), "make slice cap")
+		ct := in.get(fr, x.Cap).(*Term)
+		c := n
+		if ct.IsConst() {
+			c = in.concreteInt(ct, "make slice cap")
+		} else {
+			// a symbolic capacity is only a pre-sizing hint for the slice model (appends reallocate freely);
+			// it must still be at least the length
+			in.Obligation("panic:makeslice: cap out of range", in.tb.CmpBV("bvsle", in.tb.BV(ct.Sort.W, uint64(n)), ct), "panic")
+		}
 		if n < 0 || c < n {
 			in.goPanicf("makeslice: len out of range")
 		}
@@ -1012,6 +1023,9 @@ func (in *Interp) typeAssert(x *ssa.TypeAssert, v Iface) Value {
 			ok = types.Identical(v.T, x.AssertedType)
 		}
 	}
+	if !ok && os.Getenv("SYMGO_DEBUGTA") != "" {
+		fmt.Fprintf(os.Stderr, "typeAssert fail: have %v want %v at %s\n", v.T, x.AssertedType, in.where())
+	}
 	var res Value
 	if ok {
 		if _, isI := under(x.AssertedType).(*types.Interface); isI {
@@ -1034,6 +1048,32 @@ func (in *Interp) typeAssert(x *ssa.TypeAssert, v Iface) Value {
 	}
 	return res
 }
+
+// storeInPlace assigns v to *p. A struct or array is written member by member INTO the existing cells, so
+// that addresses of its fields / elements taken before the store (FieldAddr, IndexAddr) keep denoting the
+// stored object, as they do in Go (the SSA builder takes the field addresses of a composite literal before
+// it zeroes the variable).
+func storeInPlace(p *Value, v Value) {
+	switch nv := v.(type) {
+	case Struct:
+		if old, ok := (*p).(Struct); ok && len(old) == len(nv) {
+			for i := range nv {
+				storeInPlace(&old[i], nv[i])
+			}
+			return
+		}
+	case Array:
+		if old, ok := (*p).(Array); ok && len(old) == len(nv) {
+			for i := range nv {
+				storeInPlace(&old[i], nv[i])
+			}
+			return
+		}
+	}
+	*p = v
+}
+
+var traceFn = os.Getenv("SYMGO_TRACEFN")
 
 func debugf(format string, args ...interface{}) {
 	if os.Getenv("SYMGO_DEBUG") != "" {
